@@ -60,8 +60,18 @@ func c04OptInt(i int) string {
 	return "1 " + wInt(i)
 }
 
+// the order in which Echo.Any / Group.Any register their eleven routes (echo.go: `methods`); the model sees
+// an `any` registration as these eleven `add` ops with one handler id
+var c04AnyMethods = []string{"CONNECT", "DELETE", "GET", "HEAD", "OPTIONS", "PATCH", "POST", "PROPFIND", "PUT", "TRACE", "REPORT"}
+
 func c04Wire(c *c04Case) string {
-	parts := []string{wInt(len(c.Ops))}
+	n := len(c.Ops)
+	for _, o := range c.Ops {
+		if o.Kind == "add" && o.Via == "any" {
+			n += len(c04AnyMethods) - 1
+		}
+	}
+	parts := []string{wInt(n)}
 	for _, o := range c.Ops {
 		switch o.Kind {
 		case "pre":
@@ -89,6 +99,12 @@ func c04Wire(c *c04Case) string {
 		case "groupUse":
 			parts = append(parts, "4", wInt(o.G), c04Ints(o.Mws))
 		case "add":
+			if o.Via == "any" {
+				for _, m := range c04AnyMethods {
+					parts = append(parts, "5", c04OptInt(o.G), wStr(m), wStr(o.Path), wInt(o.Hid), wBool(o.Fails), c04Ints(o.Mws))
+				}
+				continue
+			}
 			parts = append(parts, "5", c04OptInt(o.G), wStr(o.Method), wStr(o.Path), wInt(o.Hid), wBool(o.Fails), c04Ints(o.Mws))
 		}
 	}
@@ -363,7 +379,7 @@ func c04Run(ci any) Result {
 	// the handler that ran must be registered for the method as the Pre chain left it
 	if handlerHid >= 0 {
 		for _, o := range c.Ops {
-			if o.Kind == "add" && o.Hid == handlerHid && o.Method != effMethod {
+			if o.Kind == "add" && o.Hid == handlerHid && o.Method != effMethod && o.Via != "any" {
 				fail(fmt.Sprintf("handler %d is registered for %s but ran for a request whose method after the Pre chain is %s", handlerHid, o.Method, effMethod))
 			}
 		}
@@ -514,6 +530,12 @@ func c04Register(e *echo.Echo, groups []*echo.Group, o c04Op, h echo.HandlerFunc
 		}
 	case "match":
 		r.Match([]string{o.Method}, o.Path, h, m...)
+	case "any":
+		if o.G >= 0 {
+			groups[o.G].Any(o.Path, h, m...)
+		} else {
+			e.Any(o.Path, h, m...)
+		}
 	case "filefs":
 		r.FileFS(o.Path, "f.txt", c04FS{o.Hid}, m...)
 	case "staticfs":
@@ -683,6 +705,9 @@ func c04Gen(r *rand.Rand, tier string) []any {
 					ao.Via = "verb"
 				case 1:
 					ao.Via = "match"
+					if r.Intn(3) == 0 {
+						ao.Via = "any" // Echo.Any / Group.Any: one handler for the eleven standard methods
+					}
 				case 2:
 					ao.Via, ao.Method, ao.Fails = "filefs", "GET", false
 				case 3:
